@@ -533,3 +533,68 @@ def r06i(ctx):
         else:
             ctx.bad(cid, c.module.loc(maps[0]), f"{c.qual}._divisions pushes the division values through `{unparse(maps[0])[:80]}` and reports the outcome unchecked: unless the operation is strictly increasing on the labels the divisions are unsorted or equal labels straddle a boundary (index // 4, index % 3, 100 - index, str() of numbers), and loc / repartition / align drop rows")
     ctx.floor("divisions computed by mapping division values", n, 3)
+
+
+# layers that concatenate several pieces into one output partition AND report known divisions: confirmed order preserving
+R06J_ORDERED_CONCAT = {
+    "_concat.StackPartition": "axis=0 concat: divisions known only when the inputs' ranges follow each other",
+    "_concat.StackPartitionInterleaved": "pieces of one output partition come from inputs repartitioned to common divisions, concatenated then sorted by pandas' concat on aligned ranges",
+    "_expr.ResolveOverlappingDivisions": "moves boundary rows between neighbours, keeps order",
+    "_merge_asof.MergeAsofIndexed": "per left partition: the right pieces are concatenated in partition order before merge_asof, the result keeps the left index",
+    "_repartition.RepartitionToFewer": "consecutive input partitions, in order",
+    "_repartition.RepartitionDivisions": "consecutive boundary slices, in order",
+    "_repartition.RepartitionSize": "consecutive input partitions, in order",
+}
+
+
+@rule(
+    "R06j",
+    ["C06", "C10"],
+    """A PARTITION ASSEMBLED FROM UNORDERED PIECES HAS NO KNOWN DIVISIONS: known divisions promise index values inside
+    [divisions[i], divisions[i+1]) AND (what loc / repartition / align rely on) sorted rows inside each partition. A hand-written
+    layer that concatenates several partial results into one output partition may report known divisions only if it is in the
+    confirmed table of order-preserving concatenations. BroadcastJoin concatenated the merges with every partition of the broadcast
+    side and copied the divisions of the large input: repartition() of the result returned 0 of 128 rows.""",
+)
+def r06j(ctx):
+    import re as _re
+
+    model = ctx.model
+    n = 0
+    for c in model.expr_classes():
+        lay = c.members.get("_layer")
+        if lay is None or lay.kind == "attr":
+            continue
+        if not _re.search(r"\b_?concat\w*\b", ast.unparse(lay.node)):
+            continue
+        dv = c.provider("_divisions")
+        if dv is None or dv.kind == "attr":
+            continue
+        rets = [r.value for r in ast.walk(dv.node) if isinstance(r, ast.Return) and r.value is not None]
+        known = [r for r in rets if not _re.match(r"^[\(\[]None,?[\)\]] \* ", ast.unparse(r))]
+        n += 1
+        cid = f"{c.qual}:concatenating-layer-divisions"
+        if not known:
+            ctx.ok(cid, c.loc, "reports unknown divisions")
+        elif c.qual in R06J_ORDERED_CONCAT:
+            ctx.ok(cid, c.loc, R06J_ORDERED_CONCAT[c.qual])
+        else:
+            ctx.bad(cid, dv.cls.module.loc(known[0]), f"{c.qual}._layer concatenates several partial results into one output partition, and {dv.cls.qual}._divisions reports `{unparse(known[0])}`: the class is not in the confirmed table of order-preserving concatenations, so rows inside a partition are not sorted (and for a join on columns not even labelled by that index) - loc, repartition and alignment on the result lose rows")
+    ctx.floor("concatenating layers", n, 8)
+    # the logical node agrees with its physical twin: no known divisions on the broadcast-join path of Merge._divisions
+    merge = model.cls("Merge", "_merge")
+    fn = model.method(merge, "_divisions", own=True).node
+    seen_branch = any("is_broadcast_join" in ast.unparse(i_.test) for i_ in ast.walk(fn) if isinstance(i_, ast.If))
+    if not seen_branch:
+        raise AnalysisError("anchor vanished: broadcast-join branch of Merge._divisions")
+    badret = None
+    for p in flow.returns(fn):
+        if p.stmt.value is None:
+            continue
+        if any(pol and ast.unparse(t) == "self.is_broadcast_join" for t, pol in flow.facts(p)) and not _re.match(r"^[\(\[]None,?[\)\]] \* ", ast.unparse(p.stmt.value)):
+            badret = p
+    cid = "_merge.Merge._divisions:broadcast-join"
+    if badret is None:
+        ctx.ok(cid, merge.module.loc(fn), "unknown divisions on the broadcast-join path")
+    else:
+        ctx.bad(cid, merge.module.loc(badret.stmt), f"on the broadcast-join path Merge._divisions returns `{unparse(badret.stmt.value)}`: a broadcast join concatenates the merges with every partition of the broadcast side, the rows of a partition are not sorted and for a join on columns the index is a fresh RangeIndex - the copied divisions make repartition / loc / align drop rows")
